@@ -233,6 +233,20 @@ impl Ctx {
         self.inner.lock().unwrap().violations.len()
     }
 
+    /// Print verdict lines and exit without writing the evidence file (for
+    /// a secondary engine whose coverage the driver merges).
+    pub fn finish_quiet(&self) -> ! {
+        let g = self.inner.lock().unwrap();
+        for (sig, (n, what)) in g.known_hit.iter() {
+            println!("KNOWN-FINDING: property={} {} [signature={} instances={}]", self.id, what, sig, n);
+        }
+        for (sig, (n, path, what)) in g.violations.iter() {
+            println!("VIOLATION property={} replay={}", self.id, path);
+            println!("  class: {sig} ({n} instances): {what}");
+        }
+        std::process::exit(if g.violations.is_empty() { 0 } else { 1 });
+    }
+
     /// Write the evidence file, print verdict lines, and exit.
     pub fn finish(&self, mut coverage: Value, assumptions: &[&str]) -> ! {
         let g = self.inner.lock().unwrap();
